@@ -52,6 +52,7 @@ var cores = []string{
 	"spin-empty", "spin-incr", "spin-continue", "spin-switch", "spin-nested-fn", "spin-sleep",
 	"block-recv-expr", "block-recv-let", "block-recv-ok", "block-send", "block-send-full", "block-range", "block-pipe",
 	"block-recv-nested", "block-send-expr-arg",
+	"spin-cfor-empty", "spin-true-empty", "spin-forin-empty", "spin-recursion-quiet", "spin-forin-big", "spin-anon-expr", "block-recv-after-first",
 }
 
 var wrapKinds = []struct {
@@ -59,14 +60,14 @@ var wrapKinds = []struct {
 	n int // number of variants
 }{
 	{"if", 3}, {"switch", 2}, {"loop", 4}, {"try-body", 5}, {"catch", 2}, {"finally", 2},
-	{"func", 7}, {"funcvar", 2}, {"anon", 2}, {"module", 1}, {"go", 5}, {"defer", 3}, {"expr", 30}, {"hostcallback", 2},
+	{"func", 7}, {"funcvar", 2}, {"anon", 2}, {"module", 1}, {"go", 5}, {"defer", 3}, {"expr", 34}, {"hostcallback", 2},
 }
 
-const nExpr = 30
+const nExpr = 34
 
 func isSpinTick(core string) bool {
 	switch core {
-	case "spin-empty", "spin-incr", "spin-continue":
+	case "spin-empty", "spin-incr", "spin-continue", "spin-cfor-empty", "spin-true-empty", "spin-forin-empty", "spin-recursion-quiet", "spin-forin-big", "spin-anon-expr":
 		return false
 	}
 	return strings.HasPrefix(core, "spin-")
@@ -99,6 +100,20 @@ func renderCore(core string, u string) string {
 		return "func s" + u + "(a, b, c, d, e) { tick(); return a }\nfor { s" + u + "(1, 2, 3, 4, 5) }"
 	case "spin-sleep":
 		return "for { sleep(5) }"
+	case "spin-cfor-empty":
+		return "for i" + u + " = 0; true; i" + u + "++ { }"
+	case "spin-true-empty":
+		return "for true { }"
+	case "spin-forin-empty":
+		return "for { for x" + u + " in [1, 2, 3] { } }"
+	case "spin-recursion-quiet":
+		return "func r" + u + "(n) { if n > 0 { return r" + u + "(n - 1) }; return 0 }\nfor { r" + u + "(3) }"
+	case "spin-forin-big":
+		return "l" + u + " = make([]int64, 50)\nfor { for x" + u + " in l" + u + " { } }"
+	case "spin-anon-expr":
+		return "for { func(a, b) { return a + b }(1, 2) }"
+	case "block-recv-after-first":
+		return "c" + u + " = make(chan int64, 1)\nc" + u + " <- 1\nfor v" + u + " in c" + u + " { tick() }"
 	case "block-recv-expr":
 		return "c" + u + " = make(chan int64)\n<-c" + u
 	case "block-recv-let":
@@ -293,6 +308,14 @@ func wrap(w W, body, u string) string {
 			return def + e + " ?? tick()"
 		case 29:
 			return def + "x" + u + " = [" + e + " ?? 1, tick()]"
+		case 30:
+			return def + "if false { tick() } else if " + e + " { tick() }"
+		case 31:
+			return def + "switch 1 {\ncase " + e + ":\ntick()\n}"
+		case 32:
+			return def + "x" + u + " = " + e + " > 0 ? tick() : tick()"
+		case 33:
+			return def + "for q" + u + " = 0; " + e + "; q" + u + "++ { tick() }"
 		default:
 			return def + "x" + u + " = 1\nx" + u + " += " + e
 		}
